@@ -506,6 +506,12 @@ package rewriter
 //@   ensures[array-operand] isa(cursorNode(c), RangeStmt) && Unlabelled(c) && IsKindT(typeOfExpr(as(cursorNode(c), RangeStmt).X), 1) && Ignored(as(cursorNode(c), RangeStmt).Value)
 //@        && Addressable(as(cursorNode(c), RangeStmt).X)
 //@        ==> as(as(as(lastInserted(replBase(W)), AssignStmt).Rhs[0], CallExpr).Args[0], SliceExpr).X == as(cursorNode(c), RangeStmt).X
+//@   -- D40: with at most one iteration variable and a constant len(x) Go does not evaluate the range expression at all (spec):
+//@   -- `for i := range p.arr` with a nil p yields the indices; slicing the operand evaluates it (nil dereference). An operand that
+//@   -- contains a call is evaluated (its length is not constant), so only call-free operands are concerned.
+//@   ensures[array-key-only-unevaluated] isa(cursorNode(c), RangeStmt) && Unlabelled(c) && IsKindT(typeOfExpr(as(cursorNode(c), RangeStmt).X), 1)
+//@        && Ignored(as(cursorNode(c), RangeStmt).Value) && Addressable(as(cursorNode(c), RangeStmt).X) && MayFault(as(cursorNode(c), RangeStmt).X)
+//@        ==> !(as(as(as(lastInserted(replBase(W)), AssignStmt).Rhs[0], CallExpr).Args[0], SliceExpr).X == as(cursorNode(c), RangeStmt).X)
 //@   -- D37: `arr()[:]` does not build; the operand is evaluated once into a fresh variable in front of the iterator definition
 //@   ensures[array-unaddressable] isa(cursorNode(c), RangeStmt) && Unlabelled(c) && NeedsArrCopy(as(cursorNode(c), RangeStmt).X)
 //@        ==> ArrCopy(lastInserted(insBase(replBase(W))), as(cursorNode(c), RangeStmt).X,
@@ -923,6 +929,53 @@ package rewriter
 //@   ensures[other] !(isa(cursorNode(c), ForStmt) || isa(cursorNode(c), RangeStmt) || isa(cursorNode(c), SwitchStmt) || isa(cursorNode(c), TypeSwitchStmt) || isa(cursorNode(c), SelectStmt) || isa(cursorNode(c), FuncLit))
 //@        ==> SLen(loopStack) == old(SLen(loopStack)) && SLen(switchStack) == old(SLen(switchStack)) && SLen(funcLitStack) == old(SLen(funcLitStack))
 //@   modifies cell(loopStack), cell(switchStack), cell(funcLitStack), AST
+
+// ---------------------------------------------------------------- optimize.go: Delay elision moves the arguments of the returned call (C07, C13, C02)
+// D39: Delay(func() Seq[T] { return C(args) }) => C(args) evaluates args where the Delay call stands. EffFree is abstract: the
+// `ghost` rules below are its definition (literals, func literals, names; parentheses, selections and instantiations of such;
+// calls of the no-effect seq constructors over such, Bind only with a literal first argument).
+//@ extern (*types.Func).Pkg(f) (p)
+//@   ensures p == funcPkg(f)
+//@ extern (*types.Package).Path(p) (s)
+//@   ensures same(s, pkgPath(p))
+//@ extern (*types.object).Name(f) (s)
+//@   ensures same(s, funcName(f))
+//@ func isType(ctx, e) (ok)
+//@   trusted      -- go/types: the mode recorded for the expression (types.TypeAndValue.IsType); decides the abstract IsTypeExpr
+//@   ensures ok == IsTypeExpr(e)
+//@ pred NoEffectCtorName(s string) := s == cstDelay || s == cstCombine || s == cstFor || s == cstWhile || s == cstLoop
+//@        || s == cstReturn || s == cstNormal || s == cstBreak || s == cstContinue
+//@ pred SeqFunc(o types.Object) := isa(o, types.Func) && !isnil(o) && funcPkg(ptr(o)) != nil && pkgPath(funcPkg(ptr(o))) == pkgSeqPath
+//@ pred NoTypedNil(l []ast.Expr) := forall j: Int :: 0 <= j && j < len(l) ==> WfExpr(l[j])
+//@ pred AllEffFree(l []ast.Expr) := forall j: Int :: 0 <= j && j < len(l) ==> EffFree(l[j])
+//@ func valuesOnly(ctx, exprs) (ok)
+//@   reveal wf-ast
+//@   requires NoTypedNil(exprs)
+//@   -- WfAst for expression lists: the arguments of a call are proper nodes
+//@   ghost forall j: Int :: 0 <= j && j < len(exprs) && isa(exprs[j], CallExpr) && !isnil(exprs[j]) ==> NoTypedNil(as(exprs[j], CallExpr).Args)
+//@   ghost forall j: Int :: 0 <= j && j < len(exprs) && (isa(exprs[j], BasicLit) || isa(exprs[j], FuncLit) || isa(exprs[j], Ident)) ==> EffFree(exprs[j])
+//@   ghost forall j: Int :: 0 <= j && j < len(exprs) && isa(exprs[j], ParenExpr) && EffFree(as(exprs[j], ParenExpr).X) ==> EffFree(exprs[j])
+//@   ghost forall j: Int :: 0 <= j && j < len(exprs) && isa(exprs[j], SelectorExpr) && EffFree(as(exprs[j], SelectorExpr).X) ==> EffFree(exprs[j])
+//@   ghost forall j: Int :: 0 <= j && j < len(exprs) && isa(exprs[j], IndexExpr) && IsTypeExpr(as(exprs[j], IndexExpr).Index)
+//@        && EffFree(as(exprs[j], IndexExpr).X) ==> EffFree(exprs[j])
+//@   ghost forall j: Int :: 0 <= j && j < len(exprs) && isa(exprs[j], IndexListExpr) && EffFree(as(exprs[j], IndexListExpr).X) ==> EffFree(exprs[j])
+//@   ghost forall j: Int :: 0 <= j && j < len(exprs) && isa(exprs[j], CallExpr) && SeqFunc(calleeOf(as(exprs[j], CallExpr)))
+//@        && NoEffectCtorName(funcName(ptr(calleeOf(as(exprs[j], CallExpr))))) && AllEffFree(as(exprs[j], CallExpr).Args) ==> EffFree(exprs[j])
+//@   ghost forall j: Int :: 0 <= j && j < len(exprs) && isa(exprs[j], CallExpr) && SeqFunc(calleeOf(as(exprs[j], CallExpr)))
+//@        && funcName(ptr(calleeOf(as(exprs[j], CallExpr)))) == cstBind && len(as(exprs[j], CallExpr).Args) == 2
+//@        && isa(as(exprs[j], CallExpr).Args[0], BasicLit) && AllEffFree(as(exprs[j], CallExpr).Args) ==> EffFree(exprs[j])
+//@   loop #0 over exprs invariant forall j: Int :: 0 <= j && j < _idx ==> EffFree(exprs[j])
+//@   ensures[values-only] ok ==> AllEffFree(exprs)
+
+//@ closure optimizer.optimizeDelayCall#2 as @Match.1 (c, ctx)
+//@   -- go-matcher: the callback runs with the bindings of the pattern it was registered for: "return" is the call expression
+//@   -- returned by the Delay thunk (assumed contract of the dependency); its arguments are proper nodes (WfAst)
+//@   requires c != nil && ctx.MatchCtx != nil && existing(ctx.MatchCtx) && existing(ctx.Binds["return"])
+//@   requires isa(ctx.Binds["return"], CallExpr) && !isnil(ctx.Binds["return"]) && NoTypedNil(as(ctx.Binds["return"], CallExpr).Args)
+//@   ensures[values-only] !(W == old(W)) ==> AllEffFree(as(ctx.Binds["return"], CallExpr).Args)
+//@   ensures[replaced-by-the-call] !(W == old(W)) ==> lastReplaced(W) == ctx.Binds["return"] && replBase(W) == old(W)
+//@   cover[elides] !(W == old(W))
+//@   modifies W
 
 // ---------------------------------------------------------------- optimize.go: eta reduction side conditions (C07, C13)
 // func(params) { return f(args) } may be replaced by f only if the arguments are the parameters, in order, and f is a
